@@ -61,6 +61,10 @@ def gen_cases(tier, seed):
         cases.append({"kind": rnd.choice(["flat", "deepgz", "shard", "shard", "legacy",
                                           "mixed"]),
                       "dseed": rnd.randrange(2 ** 32)})
+    # a few chunks of grids with up to 2^21 chunks per axis (identifiers beyond 2^53)
+    for k in range(6 if tier == "quick" else 60):
+        cases.append({"kind": ("shard", "legacy")[k % 2], "dseed": rnd.randrange(2 ** 32),
+                      "large": True})
     # one minishard with 64 chunks (long minishard index, read through Range requests)
     cases.append({"kind": "shard", "dseed": 1, "directed_cfg": 0})
     cases.append({"kind": "legacy", "dseed": 2, "directed_cfg": 0})
@@ -71,6 +75,10 @@ def gen_cases(tier, seed):
     # chunks of 2 MiB read through Range requests
     cases.append({"kind": "shard", "dseed": 6, "directed_cfg": 9})
     return cases
+
+
+def _positions(c):
+    return list(c["_subset"]) if "_subset" in c else shardlib.all_positions(c)
 
 
 def _build(np, case, root):
@@ -85,12 +93,23 @@ def _build(np, case, root):
     else:
         cfg = shardlib.gen_config(rnd, "quick")
     cfgs = [cfg, dict(cfg)]
+    if case.get("large"):
+        from harness.refs import morton_spec
+        cfgs = []
+        while len(cfgs) < 2:
+            c = shardlib.gen_config_large(rnd)
+            if sum(morton_spec.bits_per_axis(c["grid"])) >= 54:
+                c["_subset"] = shardlib.gen_subset_large(c, rnd, n=10)
+                cfgs.append(c)
+        cfg = cfgs[0]
+        cfgs[1]["data_type"] = cfg["data_type"]
     # second scale: other grid, same sharding parameters (same shard numbers occur again) -
     # or, in a third of the datasets, sharding parameters of its own (sharding is a
     # property of each scale; optional members may be left out in one scale only)
-    cfgs[1]["grid"] = [max(1, g // 2) for g in cfg["grid"]]
-    cfgs[1]["rem"] = [0, 0, 0]
-    if "directed_cfg" not in case and rnd.random() < 0.35:
+    if not case.get("large"):
+        cfgs[1]["grid"] = [max(1, g // 2) for g in cfg["grid"]]
+        cfgs[1]["rem"] = [0, 0, 0]
+    if "directed_cfg" not in case and not case.get("large") and rnd.random() < 0.35:
         other = shardlib.gen_config(rnd, "quick")
         for k in ("minishard_bits", "shard_bits", "preshift_bits", "minishard_index_encoding",
                   "data_encoding", "omit_default_keys"):
@@ -120,23 +139,34 @@ def _build(np, case, root):
         one["scales"] = one["scales"][:1]
         sh.info = one
         pio_sh = precomputed_io.PrecomputedIO(one, sh)
-        for pos in shardlib.all_positions(cfgs[0]):
+        for pos in _positions(cfgs[0]):
             pio_sh.write_chunk(shardlib.chunk_array(np, cfgs[0], pos), "s0",
                                shardlib.coords_of(cfgs[0], pos))
         sh.close()
-        for pos in shardlib.all_positions(cfgs[1]):
+        for pos in _positions(cfgs[1]):
             pio_plain.write_chunk(shardlib.chunk_array(np, cfgs[1], pos, 1), "s1",
                                   shardlib.coords_of(cfgs[1], pos))
     else:
         pio = precomputed_io.get_IO_for_new_dataset(json.loads(json.dumps(info)), acc)
         for i, c in enumerate(cfgs):
-            pos_list = shardlib.all_positions(c)
+            pos_list = _positions(c)
             rnd.shuffle(pos_list)
             for pos in pos_list:
                 pio.write_chunk(shardlib.chunk_array(np, c, pos, i), f"s{i}",
                                 shardlib.coords_of(c, pos))
         if hasattr(acc, "close"):
             acc.close()
+    _build.foreign_layout = False
+    if kind in ("shard", "legacy") and case["dseed"] % 3 == 0:
+        # the same dataset as another writer of the format lays it out: each minishard's
+        # data followed by its own index, minishards in another order, unused bytes between
+        from harness.refs import shard_spec
+        for sc in scales:
+            sd = os.path.join(d, sc["key"])
+            for fn in (os.listdir(sd) if os.path.isdir(sd) else []):
+                if fn.endswith(".shard"):
+                    shard_spec.rewrite_interleaved(os.path.join(sd, fn), sc["sharding"])
+                    _build.foreign_layout = True
     if kind == "legacy":
         for i in range(2):
             n = 16 * (1 << cfgs[i]["minishard_bits"])
@@ -171,6 +201,8 @@ def run_case(case):
     srv = None
     try:
         info, cfgs, stored = _build(np, case, top)
+        obs["datasets_in_another_writers_shard_layout"] = int(_build.foreign_layout)
+        obs["datasets_with_identifiers_beyond_2_53"] = int(bool(case.get("large")))
         srv = httpd.StaticServer(top)
         local_dir = os.path.join(top, "ds")
         local = accessor_mod.get_accessor_for_url(local_dir)
@@ -179,9 +211,10 @@ def run_case(case):
                f"{cfgs[0]['data_type']}x{cfgs[0]['num_channels']} bits(m,s,p)=("
                f"{cfgs[0]['minishard_bits']},{cfgs[0]['shard_bits']},"
                f"{cfgs[0]['preshift_bits']}) enc=({cfgs[0]['minishard_index_encoding']},"
-               f"{cfgs[0]['data_encoding']})")
+               f"{cfgs[0]['data_encoding']})"
+               + (" interleaved-layout" if _build.foreign_layout else ""))
         chunks = [(f"s{i}", shardlib.coords_of(c, pos)) for i, c in enumerate(cfgs)
-                  for pos in shardlib.all_positions(c)]
+                  for pos in _positions(c)]
         if kind == "mixed":
             # the dispatch must be plain; only the unsharded scale is readable that way
             chunks = [ch for ch in chunks if ch[0] == "s1"]
@@ -466,6 +499,10 @@ def gates(obs, tier):
         "all_dataset_kinds": len(obs.get("datasets", {})) == 5,
         "range_requests_logged": obs.get("range_requests", 0) > 100,
         "connections_cut_without_reply": obs.get("connections_cut_without_reply", 0) > 20,
+        "datasets_with_identifiers_beyond_2_53": obs.get(
+            "datasets_with_identifiers_beyond_2_53", 0) >= 4,
+        "datasets_in_another_writers_shard_layout": obs.get(
+            "datasets_in_another_writers_shard_layout", 0) > 5,
         "all_fault_modes_injected": len(obs.get("fault_modes", {})) == len(FAULTS)
         and obs.get("faults_injected_by_server", 0) > 100,
         "chunk_comparisons": obs.get("chunk_comparisons", 0) > 1000,
